@@ -30,11 +30,26 @@ RouteVerdict(T, r) ==
     ELSE IF r[10] # 0 THEN "mean outside [min, max]"
     ELSE ""
 
+\* sequences around a large offset ev.a (ev.xs are the samples minus the offset): count, extremes and mean are
+\* compared after subtracting the offset, and k * s with k * Q - S^2 of the small sequence (the sum of squared
+\* deviations does not depend on the offset); the residual of the mean grows with the magnitude of the samples
+AbsV(v) == IF v < 0 THEN -v ELSE v
+ShiftVerdict(T, off, r) ==
+    IF r[2] # T.k THEN "count differs"
+    ELSE IF T.k = 0 THEN ""
+    ELSE IF r[3] # T.mn \/ r[4] # T.mx THEN "min or max differs"
+    ELSE IF r[5] # T.S \/ r[6] > ResBound + T.k * (AbsV(off) \div 1000) THEN "mean is not sum/count (large offset)"
+    ELSE IF AbsV(r[7] - (T.k * T.Q - T.S * T.S)) > 1 + (T.k * T.Q - T.S * T.S) \div 1000 THEN "s is not the sum of squared deviations (large offset)"
+    ELSE IF r[9] # 0 THEN "negative variance"
+    ELSE IF r[10] # 0 THEN "mean outside [min, max]"
+    ELSE ""
+
 EvVerdict(ev) ==
-    LET T == Truth(ev)
-        bad == { i \in 1..Len(ev.routes) : RouteVerdict(T, ev.routes[i]) # "" }
+    LET T == IF ev.kind = "shift" THEN Truth([ev EXCEPT !.kind = "seq"]) ELSE Truth(ev)
+        RV(r) == IF ev.kind = "shift" THEN ShiftVerdict(T, ev.a, r) ELSE RouteVerdict(T, r)
+        bad == { i \in 1..Len(ev.routes) : RV(ev.routes[i]) # "" }
     IN IF bad = {} THEN "" ELSE LET i == CHOOSE j \in bad : \A m \in bad : j <= m
-                                IN RouteVerdict(T, ev.routes[i]) \o " @" \o ev.routes[i][1]
+                                IN RV(ev.routes[i]) \o " @" \o ev.routes[i][1]
 
 Step == /\ l <= Len(TraceLog) /\ l' = l + 1
         /\ LET v == IF Ev.e = "StatsRoute" THEN EvVerdict(Ev) ELSE ""
